@@ -105,7 +105,7 @@ PROPS = {
         n={'quick': 2500, 'thorough': 40000},
         theorems=['indexed_answer_sound_partial', 'indexed_answer_sound_refuted', 'indexed_error_only_if_infeasible',
                   'largest_first_answer_sound', 'random_improve_answer_sound', 'nonindexed_error_only_if_infeasible',
-                  'topk_dominates', 'sel_code_sound'],
+                  'topk_dominates', 'topk_perm', 'outcome_spec_partial', 'sel_code_sound'],
         classify=_c37_classes,
         rule='real in-memory on-chain/off-chain databases filled from the generated set of unspent resources (off-chain tables through '
              'the real process_executor_events); the real select_coins_to_spend over the real coins_to_spend_index iterators, and '
@@ -118,8 +118,6 @@ PROPS = {
              'Pcheck (soundness / error only if infeasible) is evaluated on the implementation answer. '
              'non-trivial = distinct input with a non-empty observation',
         assumptions=['resource ids are unique over coins and messages (utxo id = tx id with the rid in the last bytes, output 0; nonce likewise)',
-                     'the order-independence of the top-k sum (Pcheck ranks the admissible set in world order, the theorems in the order the '
-                     'algorithm reads) is not proved; it is exercised by the tie',
                      'sums of amounts stay below 2^128 (fewer than 2^64 resources)'],
     ),
     'C38': dict(
